@@ -737,6 +737,7 @@ func (interp *Interpreter) ast(f ast.Node) (string, *node, error) {
 			switch a.Tok {
 			case token.CONST:
 				kind = constDecl
+				a.Specs = expandConstSpecs(a.Specs)
 			case token.IMPORT:
 				kind = importDecl
 			case token.TYPE:
@@ -970,6 +971,27 @@ func (s *nodestack) top() astNode {
 }
 
 // dup returns a duplicated node subtree.
+// expandConstSpecs returns constant specs where the implicit repetition of the
+// previous type and expression list is made explicit.
+func expandConstSpecs(specs []ast.Spec) []ast.Spec {
+	res := make([]ast.Spec, 0, len(specs))
+	var prev *ast.ValueSpec
+	for _, spec := range specs {
+		vs, ok := spec.(*ast.ValueSpec)
+		if !ok {
+			res = append(res, spec)
+			continue
+		}
+		if len(vs.Values) == 0 && vs.Type == nil && prev != nil && len(vs.Names) == len(prev.Values) {
+			vs = &ast.ValueSpec{Doc: vs.Doc, Names: vs.Names, Type: prev.Type, Values: prev.Values, Comment: vs.Comment}
+		} else if len(vs.Values) > 0 {
+			prev = vs
+		}
+		res = append(res, vs)
+	}
+	return res
+}
+
 // splitVarSpecs returns package level variable specs where 'var a, b = x, y'
 // is expanded to 'var a = x; var b = y', as each variable is initialized on
 // its own, in dependency order.
